@@ -18,7 +18,10 @@ CHARGES = [None, None, 0, -2, 3, 1, -1]
 SUBSYSTEMS = ["", "", "Glycolysis", "S 1", "Transport, extracellular"]
 NOTES = [{}, {}, {}, {"a": "b"}, {"z": "1", "a": "2"}, {"note": "two words", "Z": "x", "_": ""}]
 ANNOTS = [{}, {}, {}, {"sbo": "SBO:0000247"}, {"kegg.compound": ["C1", "C2"], "chebi": "CHEBI:1"},
-          {"z": "1", "bigg.metabolite": "x", "a": ["1"]}]
+          {"z": "1", "bigg.metabolite": "x", "a": ["1"]},
+          # several identifiers for one provider where one is a prefix / substring of another
+          {"ec-code": ["1.1.1.27", "1.1.1.2"]}, {"pubmed": ["10108", "1010", "101"], "chebi": "CHEBI:1"},
+          {"kegg.compound": ["C00031", "C0003"], "chebi": ["CHEBI:17234", "CHEBI:1723"]}]
 COEFFS = [1, -1, 2, -2, 0.5, -0.5, 0.25, 3, -1.5, 1.0, -1.0]
 OBJ_COEFFS = [1, 1, -1, 2, 0.5]
 CFGS = [(-1000.0, 1000.0)] * 5 + [(-10.0, 10.0), (-1000.0, 50.0), (-99999.0, 99999.0), (-5.0, 1000.0)]
